@@ -269,6 +269,10 @@ def stepLine (st : DState) (line : String) : DState × String :=
       match Hex.decode b with
       | some bs => (st, " ".intercalate ((Truncate.utf16Units bs).map toString))
       | none => (st, "bad-op")
+  | ["xmlesc", t] =>
+      match (if t = "-" then some "" else Hex.decodeString t) with
+      | some str => (st, Hex.encode (Text.utf8 (Telemetry.xmlEscape str.toList)))
+      | none => (st, "bad-op")
   | "telem" :: toks =>
       match Tok.run (do
           let cid ← Tok.str; let tn ← Tok.str; let rn ← Tok.str; let rin ← Tok.str; let sub ← Tok.str
